@@ -7,14 +7,17 @@ D=$(realpath "$1"); ID=$(basename "$D"); W=/tmp/confirm-$ID
 export CARGO_TARGET_DIR=${CONFIRM_TARGET:-/var/tmp/confirm-target} CARGO_NET_OFFLINE=true
 git -C /repo worktree remove --force $W >/dev/null 2>&1; rm -rf $W
 git -C /repo worktree add --detach $W HEAD >/dev/null 2>&1 || { echo "worktree failed"; exit 2; }
-mkdir -p $W/_seed && cp -r $D/* $W/_seed/ && chmod +x $W/_seed/*.sh 2>/dev/null
+# seeds written as one of two (round 5) keep their layout <worktree>/_seed/A|B/: the demo names that directory
+SUB=""
+if grep -qs '_seed/B' $D/*.sh; then SUB=/B; elif grep -qs '_seed/A\|dirname "\$0")/\.\./\.\.' $D/*.sh; then SUB=/A; fi
+mkdir -p $W/_seed$SUB && cp -r $D/* $W/_seed$SUB/ && chmod +x $W/_seed$SUB/*.sh 2>/dev/null
 ln -sfn $CARGO_TARGET_DIR $W/target; cd $W
 (cargo build --offline -q 2>/dev/null) || { echo "baseline build failed"; exit 2; }
-timeout 300 ./_seed/demo.sh > /var/tmp/confirm-$ID.without.log 2>&1; without=$?
-git apply _seed/patch.diff || { echo "PATCH DOES NOT APPLY"; git -C /repo worktree remove --force $W; exit 1; }
+timeout 600 ./_seed$SUB/demo.sh > /var/tmp/confirm-$ID.without.log 2>&1; without=$?
+git apply _seed$SUB/patch.diff || { echo "PATCH DOES NOT APPLY"; git -C /repo worktree remove --force $W; exit 1; }
 (cargo build --offline -q 2>/dev/null) || { echo "BUILD FAILS WITH PATCH"; git -C /repo worktree remove --force $W; exit 1; }
 VERIF_REPO=$W /verif/tools/baseline.sh > /var/tmp/confirm-$ID.tests.log 2>&1; tests=$?
-timeout 300 ./_seed/demo.sh > /var/tmp/confirm-$ID.with.log 2>&1; with=$?
+timeout 600 ./_seed$SUB/demo.sh > /var/tmp/confirm-$ID.with.log 2>&1; with=$?
 cd /; git -C /repo worktree remove --force $W; rm -rf $W
 echo "demo without patch: exit $without (want 0) | tests with patch: $(tail -1 /var/tmp/confirm-$ID.tests.log) | demo with patch: exit $with (want non-zero)"
 if [ $without -eq 0 ] && [ $tests -eq 0 ] && [ $with -ne 0 ]; then echo CONFIRMED; exit 0; else echo NOT-CONFIRMED; tail -n 5 /var/tmp/confirm-$ID.without.log; tail -n 5 /var/tmp/confirm-$ID.with.log; exit 1; fi
